@@ -85,7 +85,9 @@ def run(prop: str, tier: str) -> int:
                 for a, b in G.edges_of(n, st0[1]):
                     deg[a] += 1
                     deg[b] += 1
-                groups.setdefault((n, tuple(sorted(st0[0])), tuple(sorted(deg))), []).append(1)
+                groups.setdefault((n, tuple(sorted(st0[0])), tuple(sorted(deg))), []).append((st0, s))
+    if prop == "C02":
+        _wl_pairs_in_sequence(rep, groups)
     if prop in ("C01", "C02", "C04", "C13"):
         from . import zoo
 
@@ -96,6 +98,57 @@ def run(prop: str, tier: str) -> int:
                 distinct_nontrivial=sum(len(v) for v in groups.values() if len(v) > 1))
     rep.assumptions.append("orbit closure under adjacent transpositions is the isomorphism oracle; no library code in it")
     return rep.finish()
+
+
+def _wl_equivalent(n, a, b):
+    """True iff colour refinement (own implementation) cannot tell the two labelled coloured graphs apart."""
+    from .ref import iso
+
+    def adj(st):
+        out = [[] for _ in range(n)]
+        for i, j in G.edges_of(n, st[1]):
+            out[i].append(j)
+            out[j].append(i)
+        return out
+    col = [("c", c) for c in a[0]] + [("c", c) for c in b[0]]
+    ad = adj(a) + [[w + n for w in x] for x in adj(b)]
+    ref = iso._refine(col, ad)
+    from collections import Counter
+    return Counter(ref[:n]) == Counter(ref[n:])
+
+
+def _seq_job(job):
+    n, a, b = job
+    sa = e1.pipeline(n, a)[2]
+    sb = e1.pipeline(n, b)[2]
+    return sa, sb
+
+
+def _wl_pairs_in_sequence(rep, groups):
+    """Non-isomorphic molecules that colour refinement cannot distinguish, canonicalized directly after each other in
+    one process (both orders): the second must still get its own string (no state carried between molecules)."""
+    jobs = []
+    expect = {}
+    for (n, ms, deg), members in groups.items():
+        if len(members) < 2 or n < 2:
+            continue
+        for i in range(len(members)):
+            for j in range(len(members)):
+                if i != j and _wl_equivalent(n, members[i][0], members[j][0]):
+                    jobs.append((n, members[i][0], members[j][0]))
+                    expect[(n, members[j][0])] = members[j][1]
+                    expect[(n, members[i][0])] = members[i][1]
+    cnt = 0
+    for job, (sa, sb) in pmap(_seq_job, jobs, chunksize=8):
+        n, a, b = job
+        cnt += 1
+        rep.add(transitions=2, traces_validated_against_impl=2)
+        if sb != expect[(n, b)] or sa != expect[(n, a)] or sa == sb:
+            rep.violation("C02|wl-pair-in-sequence", {
+                "kind": "e1-sequence", "n": n, "state_a": a, "state_b": b, "expect_b": expect[(n, b)],
+                "summary": f"after canonicalizing {_show(n, a)} the WL-equivalent, non-isomorphic {_show(n, b)} gets {sb!r} "
+                           f"(alone: {expect[(n, b)]!r}; first got {sa!r})"})
+    rep.add(wl_equivalent_ordered_pairs_run_in_sequence=cnt)
 
 
 def _show(n, st):
